@@ -34,6 +34,30 @@ def main(tier):
         s = c03.random_scene(rnd, rnd.randint(0, 1))
         s['opts'] &= ~1
         scenes.append(s)
+    # two ends of different connectors inside one shape, on one horizontal or vertical line (ends inside shapes are in C03's quantifier)
+    for _ in range(80 if quick else 2500):
+        s = c03.random_scene(rnd, rnd.randint(0, 1))
+        s['opts'] &= ~1
+        boxes = [RC.poly_rect(sh) for sh in s['shapes'] if len(sh) == 4]
+        boxes = [b for b in boxes if b[2] - b[0] >= 4 and b[3] - b[1] >= 2 or b[3] - b[1] >= 4 and b[2] - b[0] >= 2]
+        if not boxes:
+            continue
+        b = rnd.choice(boxes)
+        xs, ys = list(range(b[0] + 1, b[2], 2)), list(range(b[1] + 1, b[3], 2))
+        if len(xs) >= 2 and (len(ys) < 2 or rnd.random() < 0.5):
+            x1, x2 = rnd.sample(xs, 2); y = rnd.choice(ys); inside = [(x1, y), (x2, y)]
+        elif len(ys) >= 2:
+            y1, y2 = rnd.sample(ys, 2); x = rnd.choice(xs); inside = [(x, y1), (x, y2)]
+        else:
+            continue
+        conns = list(s['conns'])
+        while len(conns) < 2:
+            conns.append(conns[0])
+        for k in range(2):
+            c = conns[k]
+            conns[k] = (inside[k][0], inside[k][1], 15, c[3], c[4], 15)
+        s['conns'] = conns
+        scenes.append(s)
     sf = os.path.join(d, 'scenes.txt')
     RC.write_scenes(sf, scenes)
     of = os.path.join(d, 'frame.json')
@@ -81,7 +105,10 @@ def main(tier):
                 brief['rawA_lattice'] = x['latA']
             else:
                 brief = {k: v for k, v in x.items() if k not in ('A', 'B')}
-            vd.violation('%s:%s' % (x['kind'], name), '%s: %s' % (name, json.dumps(brief)[:700]), brief)
+            key = '%s:%s' % (x['kind'], name)
+            if not isinstance(t, str) and t[0].endswith(':an-end-lies-on-a-shape-boundary'):
+                key = 'route:' + t[0]                      # one class whatever the symmetry
+            vd.violation(key, '%s: %s' % (name, json.dumps(brief)[:700]), brief)
     ev.cov['evaluations'] = len(recs)
     ev.cov['distinct_nontrivial'] = sum(1 for x in recs if x['kind'] != 'route' or any(len(q) > 2 for q in x.get('latA', [])))
     ev.cov['traces_validated_against_impl'] = len(recs)
